@@ -5,6 +5,11 @@ CFG = {
     "hooks": True,
     "theorems": [
         "Leptos.Keyed.C11_unpack_complete",
+        "Leptos.Keyed.C11_unpack_complete_diff",
+        "Leptos.Keyed.C11_group_complete",
+        "Leptos.Keyed.C11_storage_is_to",
+        "Leptos.Keyed.C11_identity",
+        "Leptos.Keyed.C11_set_index",
     ],
     "harness_pkg": "hx-c11",
     "harness_bin": "c11",
